@@ -23,7 +23,8 @@ Lemma op_of_arith a : op_of (akind a) = Some (aprio a, anode a, false).
 Proof. destruct a; reflexivity. Qed.
 
 (* expressions as token-level syntax: the text of every token is arbitrary (the parser does not look at it) *)
-Inductive operand := Num (text : list chr) | Paren (po pc : list chr) (w1 : blanks) (e : expr) (w2 : blanks)
+Inductive operand := Num (text : list chr) | Pct (text : list chr) (w : blanks) (ptxt : list chr)
+  | Paren (po pc : list chr) (w1 : blanks) (e : expr) (w2 : blanks)
 with expr := Chain (x : operand) (r : tail)
 with tail := TNil | TCons (wb : blanks) (a : arith) (atxt : list chr) (wa : blanks) (x : operand) (r : tail).
 Scheme operand_mut := Induction for operand Sort Prop
@@ -34,6 +35,7 @@ Combined Scheme syntax_mut from operand_mut, expr_mut, tail_mut.
 Fixpoint toks_operand (x : operand) : list tok :=
   match x with
   | Num t => [(NUMBER, t)]
+  | Pct t w pt => (NUMBER, t) :: wst w ++ [(PERCENTAGE, pt)]
   | Paren po pc w1 e w2 => (OPEN_PAREN, po) :: wst w1 ++ toks_expr e ++ wst w2 ++ [(CLOSE_PAREN, pc)]
   end
 with toks_expr (e : expr) : list tok := match e with Chain x r => toks_operand x ++ toks_tail r end
@@ -52,6 +54,7 @@ Fixpoint tglue (r : tail) (m : nat) : list Grammar.tree :=
 Fixpoint trees_operand (x : operand) : list Grammar.tree :=
   match x with
   | Num t => [Grammar.Node NUMBER [Tok NUMBER t]]
+  | Pct t w pt => [Grammar.Node PERCENTAGE (Tok NUMBER t :: wsT w ++ [Tok PERCENTAGE pt])]
   | Paren po pc w1 e w2 => Tok OPEN_PAREN po :: trees_expr w1 e ++ wsT w2 ++ [Tok CLOSE_PAREN pc]
   end
 with trees_expr (w : blanks) (e : expr) {struct e} : list Grammar.tree :=
@@ -67,7 +70,7 @@ with tbody (r : tail) (m : nat) {struct r} : list Grammar.tree :=
   | TCons _ _ _ _ x r' => match m with O => trees_operand x | S m' => tbody r' m' end
   end.
 
-Fixpoint need_operand (x : operand) : nat := match x with Num _ => 1 | Paren _ _ _ e _ => S (need_expr e) end
+Fixpoint need_operand (x : operand) : nat := match x with Num _ | Pct _ _ _ => 1 | Paren _ _ _ e _ => S (need_expr e) end
 with need_expr (e : expr) : nat := match e with Chain x r => S (Nat.max (need_operand x) (need_tail r)) end
 with need_tail (r : tail) : nat := match r with TNil => 0 | TCons _ _ _ _ x r' => Nat.max (need_operand x) (need_tail r') end.
 
@@ -98,7 +101,7 @@ Proof. induction w as [|t w IH]; [reflexivity|]. change (count_ws (wst (t :: w))
 Lemma kind_at_end w : kind_at (wst w) (length w) = EOF.
 Proof. unfold kind_at. rewrite <- (wst_length w). now rewrite (proj2 (nth_error_None _ _) (le_n _)). Qed.
 Lemma kind_at_operand x l : kind_at (toks_operand x ++ l) 0 = NUMBER \/ kind_at (toks_operand x ++ l) 0 = OPEN_PAREN.
-Proof. destruct x; [left|right]; reflexivity. Qed.
+Proof. destruct x; [left|left|right]; reflexivity. Qed.
 
 Definition next_kind (rest : list tok) : kind := kind_at rest (count_ws rest).
 Definition follows (rest : list tok) : Prop := next_kind rest <> PERCENTAGE /\ next_kind rest <> NUMBER /\ next_kind rest <> WORD.
@@ -128,6 +131,24 @@ Proof.
   unfold checkpoint, mkst at 1. cbn [forest].
   rewrite close_at_mk.
   destruct (kind_at rest (count_ws rest)); try congruence; unfold mkst; cbn [forest]; rewrite app_length, <- app_assoc; reflexivity.
+Qed.
+
+Lemma percent_operand fuel w t wp pt rest : 1 <= fuel ->
+  OperandAt (value fuel) false (length w) (wst w ++ ((NUMBER, t) :: wst wp ++ [(PERCENTAGE, pt)]) ++ rest) (wsT w)
+    [Grammar.Node PERCENTAGE (Tok NUMBER t :: wsT wp ++ [Tok PERCENTAGE pt])] rest.
+Proof.
+  intros Hf F. destruct fuel as [|fuel]; [lia|]. unfold operandf. cbn [value]. unfold value_body.
+  rewrite <- app_comm_cons. rewrite nth_kind_mk, kind_at_wst. cbn [fst]. rewrite bumps_mk, firstn_wst, skipn_wst.
+  change (bump (mkst ((NUMBER, t) :: ?B) ?G)) with (mkst B (G ++ [Tok NUMBER t])).
+  change (count_skip (mkst ?B ?G)) with (count_ws B). fold (wsT w).
+  match goal with |- context[count_ws ?B] => replace B with (wst wp ++ (PERCENTAGE, pt) :: rest) by now rewrite <- app_assoc end.
+  assert (Hc : count_ws (wst wp ++ (PERCENTAGE, pt) :: rest) = length wp) by (rewrite count_ws_wst; cbn; lia).
+  rewrite Hc, nth_kind_mk, kind_at_wst. cbn [fst].
+  rewrite bumps_mk, firstn_wst, skipn_wst.
+  change (bump (mkst ((PERCENTAGE, pt) :: rest) ?G)) with (mkst rest (G ++ [Tok PERCENTAGE pt])).
+  unfold checkpoint, mkst at 1. cbn [forest]. fold (wsT wp).
+  replace (((F ++ wsT w) ++ [Tok NUMBER t]) ++ wsT wp) with ((F ++ wsT w) ++ ([Tok NUMBER t] ++ wsT wp)) by now rewrite !app_assoc.
+  rewrite <- (app_assoc (F ++ wsT w)). rewrite close_at_mk. rewrite app_length, <- !app_assoc. reflexivity.
 Qed.
 
 Definition operand_spec (fuel : nat) (x : operand) : Prop := forall w rest, follows rest ->
@@ -230,6 +251,7 @@ Lemma all_specs :
 Proof.
   apply syntax_mut.
   - intros t fuel Hf w rest Hfo. cbn [toks_operand trees_operand app]. apply number_operand; [exact Hf|exact Hfo].
+  - intros t wp pt fuel Hf w rest _. cbn [toks_operand trees_operand]. apply percent_operand. exact Hf.
   - intros po pc w1 e IHe w2 fuel Hf. cbn [need_operand] in Hf. destruct fuel as [|fuel]; [lia|].
     apply paren_operand. apply IHe. lia.
   - intros x IHx r IHr fuel Hf. cbn [need_expr] in Hf. destruct fuel as [|fuel]; [lia|].
@@ -245,6 +267,7 @@ Lemma need_bound :
 Proof.
   apply syntax_mut.
   - intros t. cbn. lia.
+  - intros t wp pt. cbn. lia.
   - intros po pc w1 e IHe w2. cbn [need_operand toks_operand length]. rewrite !app_length. cbn [length]. lia.
   - intros x IHx r IHr. cbn [need_expr toks_expr]. rewrite app_length. lia.
   - cbn. lia.
@@ -277,7 +300,7 @@ Proof.
   rewrite Hc. rewrite root_step. rewrite nth_kind_mk.
   assert (Hk : kind_at toks (length w0) = NUMBER \/ kind_at toks (length w0) = OPEN_PAREN).
   { unfold toks. destruct e as [x r]. cbn [toks_expr]. rewrite <- app_assoc.
-    destruct x as [t|po pc wa e' wb]; cbn [toks_operand]; rewrite <- ?app_comm_cons; rewrite kind_at_wst; [left|right]; reflexivity. }
+    destruct x as [t|t wp pt|po pc wa e' wb]; cbn [toks_operand]; rewrite <- ?app_comm_cons; rewrite kind_at_wst; [left|left|right]; reflexivity. }
   assert (Hend : next_kind (wst w1) = EOF) by (unfold next_kind; rewrite count_ws_only; apply kind_at_end).
   assert (Hop : operation (2 * length (buf (mkst toks [])) + 2) (length w0) (mkst toks [])
                 = Some (Some (count_ws (wst w1)), mkst (wst w1) ([] ++ trees_expr w0 e))).
@@ -310,3 +333,12 @@ Theorem group_is_canon : forall (w : blanks) (x : operand) (r : tail),
 Proof.
   intros w x r. cbn [trees_expr]. f_equal. apply climb_eq_canon; [repeat constructor|apply mkin_atoms|apply prios_levels].
 Qed.
+
+(* ---- the priorities of the model are the ones written in grammar.rs ---- *)
+From AV Require gen.Tables.
+Definition op_row (k : kind) : option (N * nat * N * bool) :=
+  match op_of k with Some (p, node, u) => Some (kind_code k, p, kind_code node, u) | None => None end.
+Definition table_row (k : kind) : option (N * nat * N * bool) :=
+  find (fun r => N.eqb (fst (fst (fst r))) (kind_code k)) gen.Tables.op_table.
+Theorem priorities_are_translated : forall k : kind, op_row k = table_row k.
+Proof. destruct k; vm_compute; reflexivity. Qed.
